@@ -29,7 +29,32 @@ C12_StaleCapacity(lo, hi) ==
           /\ NextAcc(H[i].t, i, k) /\ H[k].e = "ld" /\ H[k].fn = "growing_circular_array::get"
           /\ \E j \in i + 1 .. k - 1 : H[j].e = "st" /\ H[j].a = H[i].a /\ H[j].t # H[i].t
 
+\* C10 / C11: vyukov_hash_map::try_get_value keeps reading the block it acquired at its start although a concurrent
+\* grow has replaced it: thread t loads location X (data_block) inside an "xget" call, another thread stores X from
+\* do_grow, and t's call is still open afterwards.  Elements removed through the new block are then invisible to
+\* the version validation of the old bucket (use after free with pointer-based reclaimers and node-based storage).
+OpenXget(t, c, i) == /\ H[c].e = "call" /\ H[c].t = t /\ H[c].op = "xget" /\ c < i
+                     /\ \A m \in c + 1 .. i : ~(H[m].e = "ret" /\ H[m].t = t)
+C10_StaleBlockRead(lo, hi) ==
+  \E i \in lo .. hi :
+     /\ H[i].e = "ld" /\ H[i].t # 9
+     /\ \E c \in lo .. i : OpenXget(H[i].t, c, i)
+     /\ \E j \in i + 1 .. hi :
+          /\ H[j].e = "st" /\ H[j].a = H[i].a /\ H[j].t # H[i].t /\ H[j].fn = "vyukov_hash_map::do_grow"
+          /\ \E c \in lo .. i : OpenXget(H[i].t, c, j)
+
+\* C10: the accessor of the (non-trivial key, managed_ptr value) storage mode acquires the node guard and then the
+\* value guard INSIDE the node (node_guard->value) before try_get_value has validated the bucket version: the first
+\* access to reclaimed memory happens in accessor::accessor called from traits::acquire called from try_get_value.
+C10_NestedAccessorDeref(lo, hi) ==
+  LET uafs == {i \in lo .. hi : H[i].e = "uaf"} IN
+  /\ uafs # {}
+  /\ LET first == CHOOSE i \in uafs : \A j \in uafs : i <= j IN
+     H[first].ctx = "impl::vyukov_hash_map_traits::accessor::accessor<impl::vyukov_hash_map_traits::acquire<vyukov_hash_map::try_get_value"
+
 Eval(lo, hi) == CASE IOEnv.KF = "C12_StaleCapacity" -> C12_StaleCapacity(lo, hi)
+                  [] IOEnv.KF = "C10_NestedAccessorDeref" -> C10_NestedAccessorDeref(lo, hi)
+                  [] IOEnv.KF = "C10_StaleBlockRead" -> C10_StaleBlockRead(lo, hi)
                   [] OTHER -> FALSE
 Resets == {i \in 1 .. N : H[i].e = "reset"}
 SegEnd(i) == LET later == {j \in Resets : j > i} IN
